@@ -41,6 +41,8 @@ class SimFile(object):
         self.in_write = None    # data of the write call in progress (crash observers)
         self._closed = False
         self.invoked = []       # (stamp, raw) of every write call entered (oracle use)
+        # ENOSPC, EIO, and the two that Python maps to BlockingIOError / InterruptedError
+        self.errnos = [errno.ENOSPC, errno.EIO, errno.EAGAIN, errno.EINTR]
 
     # -- helpers
     def _count(self, k):
@@ -81,7 +83,7 @@ class SimFile(object):
                 k = self.fault.choose(3, "partial")      # 0: nothing accepted, 1: prefix, 2: all but raise
                 acc = b"" if k == 0 else (raw[: max(1, len(raw) // 2)] if k == 1 else raw)
                 self.user_buf += acc
-                en = errno.ENOSPC if self.fault.choose(2, "errno") == 0 else errno.EIO
+                en = self.errnos[self.fault.choose(len(self.errnos), "errno")]
                 self.calls.append(("write!", raw, len(acc), en))
                 raise OSError(en, "simulated write error")
             self.user_buf += raw
@@ -104,7 +106,7 @@ class SimFile(object):
         self._yield("file.flush")
         if self.p_io_error and self.fault is not None and self.fault.chance(self.p_io_error, "io_error"):
             self._count("io_error_flush")
-            en = errno.ENOSPC if self.fault.choose(2, "errno") == 0 else errno.EIO
+            en = self.errnos[self.fault.choose(len(self.errnos), "errno")]
             self.calls.append(("flush!", en))
             raise OSError(en, "simulated flush error")
         self.os_cache += self.user_buf
